@@ -1,11 +1,147 @@
-/- Driver ops for C16. -/
+/- Driver ops for C16 (FITS round trips, filesystem histories). -/
 import Driver.Loop
+import Model.Fits
 
-open Lean Model
+open Lean Model Model.Fits
 
 namespace Driver.C16
 
-def ops : List (String × Op) := []
+def dataToJson : Data Rat → Json
+  | .d1 v => ratsToJson v
+  | .d2 rows => ratMatToJson rows
+
+def headerToJson (h : List (String × Rat)) : Json :=
+  listToJson (fun (c : String × Rat) => Json.arr #[Json.str c.1, ratToJson c.2]) h
+
+def hduToJson (h : Hdu Rat) : Json := obj [("data", dataToJson h.data), ("header", headerToJson h.header)]
+
+def getPair (j : Json) : Except String (Rat × Rat) := do
+  let l ← getRats j
+  match l with
+  | [a, b] => pure (a, b)
+  | _ => throw "expected pair"
+
+def getBits (j : Json) : Except String (List Bool) := do
+  pure ((← getStr j).toList.map (· == '1'))
+
+def read2dToJson (r : Read2d Rat) : Except String Json := do
+  match r.native 0 with
+  | some v =>
+    let slim := match Impl.viewSlim r.mask r.stored 0 with
+      | some (.slim s) => s
+      | _ => []
+    pure (obj [("shape", natsToJson [r.mask.h, r.mask.w]), ("native", ratsToJson v),
+      ("slim", ratsToJson slim), ("mask_bits", bitsToJson r.mask.bits),
+      ("scales", ratsToJson [r.scales.1, r.scales.2])])
+  | none => throw "view_failed"
+
+/-- one 2-D array / kernel through both routes.
+    {"mask","values"(slim),"scales":[sy,sx],"flip"} →
+    {"hdu": written HDU, "from_hdu": read-back, "from_file": read-back via file (user scales), "file_headers"} -/
+def array2d : Op := fun j => do
+  let m ← getMask (← field j "mask")
+  let vals ← getRats (← field j "values")
+  let sc ← getPair (← field j "scales")
+  let flip ← getBool (← field j "flip")
+  if vals.length ≠ Impl.totalPixels m then throw "shape_mismatch"
+  let hdu := array2dHdu flip m vals sc 0
+  let r1 ← match array2dFromHdu flip hdu 0 with
+    | some r => read2dToJson r
+    | none => throw "read_failed"
+  let file := fileOf hdu
+  let r2 ← match array2dFromFits flip file 0 sc 0 with
+    | some r => read2dToJson r
+    | none => throw "read_failed"
+  let hs ← match headersFromFits file 0 with
+    | some (a, b) => pure (obj [("sci", headerToJson a), ("hdu", headerToJson b)])
+    | none => throw "read_failed"
+  pure (obj [("hdu", hduToJson hdu), ("from_hdu", r1), ("from_file", r2), ("file_headers", hs)])
+
+/-- a mask through both routes; file route optionally with `invert` -/
+def mask2d : Op := fun j => do
+  let m ← getMask (← field j "mask")
+  let sc ← getPair (← field j "scales")
+  let flip ← getBool (← field j "flip")
+  let invert ← getBool (fieldD j "invert" (Json.bool false))
+  let hdu := mask2dHdu flip m sc 0 1
+  let r1 ← match mask2dFromHdu flip hdu 0 with
+    | some (mm, s) => pure (obj [("mask", maskToJson mm), ("scales", ratsToJson [s.1, s.2])])
+    | none => throw "read_failed"
+  let r2 ← match mask2dFromFits flip (fileOf hdu) 0 invert 0 with
+    | some mm => pure (maskToJson mm)
+    | none => throw "read_failed"
+  pure (obj [("hdu", hduToJson hdu), ("from_hdu", r1), ("from_file", r2)])
+
+def array1d : Op := fun j => do
+  let mask ← getBits (← field j "bits")
+  let vals ← getRats (← field j "values")
+  let s ← getRat (← field j "scale")
+  let hdu := array1dHdu mask vals s 0
+  let r1 ← match array1dFromHdu hdu with
+    | some (v, sc) => pure (obj [("native", ratsToJson v), ("scales", ratsToJson [sc])])
+    | none => throw "read_failed"
+  let r2 ← match array1dFromFits (fileOf hdu) 0 with
+    | some v => pure (ratsToJson v)
+    | none => throw "read_failed"
+  pure (obj [("hdu", hduToJson hdu), ("from_hdu", r1), ("from_file", r2)])
+
+def mask1d : Op := fun j => do
+  let mask ← getBits (← field j "bits")
+  let s ← getRat (← field j "scale")
+  let hdu := mask1dHdu mask s 0 1
+  let r1 ← match mask1dFromHdu hdu 0 with
+    | some (v, sc) => pure (obj [("bits", bitsToJson v), ("scales", ratsToJson [sc])])
+    | none => throw "read_failed"
+  let r2 ← match mask1dFromFits (fileOf hdu) 0 0 with
+    | some v => pure (bitsToJson v)
+    | none => throw "read_failed"
+  pure (obj [("hdu", hduToJson hdu), ("from_hdu", r1), ("from_file", r2)])
+
+/-- a multi-HDU file assembled from the `hdu_for_output` of several arrays; read HDU `read`.
+    {"flip","arrays":[{"mask","values","scales"}],"read":k,"scales":[sy,sx]} -/
+def multiHdu : Op := fun j => do
+  let flip ← getBool (← field j "flip")
+  let k ← getNat (← field j "read")
+  let sc ← getPair (← field j "scales")
+  let arrs ← getArr (← field j "arrays")
+  let file ← arrs.mapM fun a => do
+    let m ← getMask (← field a "mask")
+    let vals ← getRats (← field a "values")
+    let s ← getPair (← field a "scales")
+    if vals.length ≠ Impl.totalPixels m then throw "shape_mismatch"
+    pure (array2dHdu flip m vals s 0)
+  match array2dFromFits flip file k sc 0, headersFromFits file k with
+  | some r, some (a, b) =>
+    pure (obj [("read", ← read2dToJson r), ("sci", headerToJson a), ("hdu", headerToJson b)])
+  | _, _ => throw "index_error"
+
+def getPath (j : Json) : Except String Path := getList getStr j
+
+def pathToJson (p : Path) : Json := listToJson Json.str p
+
+/-- {"dirs":[path], "files":[[path,id]], "steps":[{"path","overwrite","content"}]} →
+    {"results":[null|kind], "files":[[path,id]] sorted by the harness, "dirs":[path]} -/
+def fsHistory : Op := fun j => do
+  let dirs ← getList getPath (fieldD j "dirs" (Json.arr #[]))
+  let files ← getList (fun e => do
+      let l ← getArr e
+      match l with
+      | [p, c] => pure ((← getPath p), (← getNat c))
+      | _ => throw "bad file entry") (fieldD j "files" (Json.arr #[]))
+  let steps ← getList (fun s => do
+      pure ((← getPath (← field s "path")), (← getBool (← field s "overwrite")),
+            (← getNat (← field s "content")))) (← field j "steps")
+  let fs0 : FS Nat := ⟨files, dirs⟩
+  let (res, fs) := outputs fs0 steps
+  pure (obj [
+    ("results", listToJson (fun (r : Option String) => match r with
+        | none => Json.null | some e => Json.str e) res),
+    ("files", listToJson (fun (e : Path × Nat) => Json.arr #[pathToJson e.1, natToJson e.2]) fs.files),
+    ("dirs", listToJson pathToJson fs.dirs)])
+
+def ops : List (String × Op) :=
+  [("c16.array2d", array2d), ("c16.mask2d", mask2d), ("c16.array1d", array1d),
+   ("c16.mask1d", mask1d), ("c16.multi_hdu", multiHdu), ("c16.fs_history", fsHistory)]
 
 end Driver.C16
 
